@@ -174,6 +174,8 @@ package dagjson
 //@ func Encode(n, w) (err)
 //@   requires n != nil && w != nil
 //@   before Encode assert[C04] carg0.EncodeLinks && carg0.EncodeBytes && carg0.MapSortMode == codec.MapSortMode_Lexical && carg1 == n && carg2 == w
+//@   after Encode let viaoptions = true
+//@   ensures[C04] err == nil ==> defined(viaoptions)
 // (The canonical stream is positioned so that the root value's encoding starts where the fresh
 // encoder stands: a definition, stated as an explicit assumption.)
 //@ func (EncodeOptions).Encode(n, w) (err)
@@ -183,6 +185,8 @@ package dagjson
 //@ func Decode(na, r) (err)
 //@   requires na != nil && r != nil && r.teesink == nil
 //@   before Decode assert[C04,C06] carg0.ParseLinks && carg0.ParseBytes && !carg0.DontParseBeyondEnd && carg1 == na && carg2 == r
+//@   after Decode let viaoptions = true
+//@   ensures[C04,C06] err == nil ==> defined(viaoptions)
 // C10: the top-level value is decoded at depth 0.
 //@ func Unmarshal(na, tokSrc, options) (err)
 //@   requires na != nil && tokSrc != nil
